@@ -58,6 +58,10 @@ class ParamError(Flow):
         self.depth = depth
 
 
+class FilterError(Exception):
+    """An event filter was used against its documentation (modify() without the key)."""
+
+
 class HandlerError(Flow):
     def __init__(self, blk, what):
         super().__init__(f"{blk}: {what}")
@@ -73,7 +77,7 @@ def is_goto(ev):
     return isinstance(ev, dict) and 'goto' in ev
 
 
-def apply_filters(filters, data):
+def apply_filters(filters, data, notes=None):
     """Return the (possibly new) data dict, or None when the event is filtered out."""
     for f in filters:
         if f == 'veto':
@@ -95,6 +99,31 @@ def apply_filters(filters, data):
         elif isinstance(f, dict) and 'setdef' in f:
             data = dict(data)
             data.setdefault('value', f['setdef'])
+        elif isinstance(f, dict) and 'edit' in f:
+            # one DataEdit filter with chained steps, "processed left to right";
+            # modify(): "if the function returns DataEdit.REJECT, the whole event is rejected"
+            data = dict(data)
+            for pos, step in enumerate(f['edit']):
+                op = step[0]
+                last = pos == len(f['edit']) - 1
+                if op in ('rej_eq', 'rej_falsy', 'del_eq'):
+                    if 'value' not in data:
+                        raise FilterError("modify: the key must be present")
+                    value = data['value']
+                    if (op == 'rej_falsy' and not value) or (op == 'rej_eq' and value == step[1]):
+                        if notes is not None:
+                            notes.append('edit_reject_last' if last else 'edit_reject_nonfinal')
+                        return None
+                    if op == 'del_eq' and value == step[1]:
+                        del data['value']
+                elif op == 'add':
+                    data['value'] = step[1]
+                elif op == 'setdef':
+                    data.setdefault('value', step[1])
+                elif op == 'del':
+                    data.pop('value', None)
+                else:
+                    raise ValueError(f"unknown edit step {step!r}")
         else:
             raise ValueError(f"unknown filter {f!r}")
     return data
@@ -467,7 +496,11 @@ class FlowModel:
 
     # -- primitives
     def send(self, src, edge, data):
-        data = apply_filters(edge.get('filters', ()), dict(data))
+        try:
+            data = apply_filters(edge.get('filters', ()), dict(data), self.notes)
+        except FilterError:
+            # the exception is raised inside the sender's handler
+            raise HandlerError(src.name, 'filter-error') from None
         if data is None:
             self.note('filter_veto')
             return
@@ -494,6 +527,8 @@ class FlowModel:
                 ev = ev['cond'][0] if data.get('value') else ev['cond'][1]
                 if ev is None:
                     self.note('cond_none')
+                    if blk.init == 0 and blk.spec.get('persistent'):
+                        self.note('cond_none_uninit_persistent')
                     return None
                 self.note('cond_resolved')
             if blk.init == 0:
